@@ -48,7 +48,7 @@ CHECKS = {
              "assumed balanced in the proof and exercised dynamically; exceptions escaping expand() are outside the property.",
         ref="DESIGN.md section 4 C16"),
     "C18": dict(
-        technique="Coq proofs (pad/sub/plural specs; ladder regenerated from parserfns.py equals the documented one) + value correspondence against Coq reference models",
+        technique="Coq proofs (pad/sub/plural specs; formatnum round trip; #expr ladder parser inverts the printer for all trees; ladder regenerated from parserfns.py equals the documented one) + value correspondence against Coq reference models",
         text="Theorems: c18_ladder_is_documented (the #expr precedence ladder extracted from expr_fn on this run equals the "
              "documented ladder, all binary levels left-associative), c18_padleft/c18_padright/c18_pad_cyclic (exact result and "
              "length for all values, counts and pad strings), c18_sub_*, c18_plural_selects_by_one, and c18_formatnum_roundtrip(_shipped) + "
@@ -56,7 +56,12 @@ CHECKS = {
              "of the regenerated Gen/GenLocales.v). Every listed string "
              "function, plural, #expr on integer ASTs (minimal vs full parentheses, random spacing/case, compared with the Coq "
              "reference evaluator) and formatnum / formatnum|R on every shipped locale are compared with the Coq models and "
-             "with references written from the documentation. PARTIAL: parser correctness of the ladder for all ASTs is checked by correspondence, not yet proved.",
+             "with references written from the documentation. c18_expr_parser_inverts_printer(_any_ladder) + c18_expr_ladder_unambiguous: the ladder machine of "
+             "Model/ExprParse.v (generic_binary loop per binary level, parse_unary_fn per prefix level, terminal) over the "
+             "regenerated ladder parses the minimally parenthesised printing of EVERY expression tree back to that tree "
+             "(precedence = ladder order, left associativity); the machine is compared with expr_fn on generated trees "
+             "(printer, read-back, value) and on token soups (accept/reject and value). PARTIAL: float arithmetic and the "
+             "tokenizer regex are outside the model.",
         note=TRUST + "translators ladder.py/locales.py trusted (fail-closed); floats, urllib quoting, non-ASCII case mapping "
              "not modelled; negative operands of mod and inexact division are outside the reference evaluator.",
         ref="DESIGN.md section 4 C18"),
